@@ -570,6 +570,11 @@ class StyleProperties:
     model_prop = styles.StyleProperties.Position
 
     @classmethod
+    def has_px(cls, attrib_value: styles.PositionType) -> bool:
+      return attrib_value.h_offset.units == styles.LengthType.Units.px or \
+        attrib_value.v_offset.units == styles.LengthType.Units.px
+
+    @classmethod
     def extract(cls, context: StyleParsingContext, xml_attrib: str):
 
       (h_edge, h_offset, v_edge, v_offset) = utils.parse_position(xml_attrib)
